@@ -717,7 +717,9 @@ func Stream(st *vfhelp.Stats, fl Flavor, bigPct int) func(t *rapid.T) {
 		var b built
 		chunkSize := 0
 		if source == "chunkwriter" {
-			c = GenFileCase(t, false, bigPct, func(SessionSpec) int { return 16 })
+			// (a tenth of the streams has three or more blocks: two consecutive full size
+			// chunks after chunk 0 exist only then)
+			c = GenFileCaseHuge(t, false, bigPct, 10, func(SessionSpec) int { return 16 })
 			c.Sess = SessionSpec{}
 			c.ReadSizes = nil
 			b = built{c: c, fs: vfs.NewMemFS(), dir: "/ss/recv"}
